@@ -237,6 +237,7 @@ func rulePileAdd(c *Ctx, rule string) {
 	type lookupEv struct {
 		ssa.Instruction
 		Index ssa.Value
+		pair  [2]ssa.Value // the two halves of the key, when a wrapper builds the key from two arguments
 	}
 	// a private helper that looks its parameter up in p.seen and reports whether it is there (isSeen)
 	lookupWrapper := func(g *ssa.Function) int {
@@ -264,7 +265,7 @@ func rulePileAdd(c *Ctx, rule string) {
 			switch x := ins.(type) {
 			case *ssa.Lookup:
 				if x.CommaOk && loadOfField(x.X, palsPkg, "Piler", "seen") {
-					lookups = append(lookups, lookupEv{x, x.Index})
+					lookups = append(lookups, lookupEv{Instruction: x, Index: x.Index})
 				}
 			case *ssa.MapUpdate:
 				if loadOfField(x.Map, palsPkg, "Piler", "seen") {
@@ -275,7 +276,9 @@ func rulePileAdd(c *Ctx, rule string) {
 					merges = append(merges, x)
 				}
 				if pi := lookupWrapper(x.Call.StaticCallee()); pi >= 0 && pi < len(x.Call.Args) {
-					lookups = append(lookups, lookupEv{x, x.Call.Args[pi]})
+					lookups = append(lookups, lookupEv{Instruction: x, Index: x.Call.Args[pi]})
+				} else if i, j := pairLookupWrapper(x.Call.StaticCallee(), add.Pkg); i >= 0 && i < len(x.Call.Args) && j < len(x.Call.Args) {
+					lookups = append(lookups, lookupEv{Instruction: x, Index: x.Call.Args[i], pair: [2]ssa.Value{x.Call.Args[i], x.Call.Args[j]}})
 				}
 			}
 		}
@@ -283,6 +286,8 @@ func rulePileAdd(c *Ctx, rule string) {
 	key := "pals.(*Piler).Add/"
 	// both orientations
 	switch {
+	case len(lookups) >= 2 && lookups[0].pair[0] != nil && lookups[1].pair[0] != nil && lookups[0].pair[0] != lookups[0].pair[1] && lookups[0].pair[0] == lookups[1].pair[1] && lookups[0].pair[1] == lookups[1].pair[0]:
+		c.ok(rule, key+"duplicate-lookup-both-orientations", lookups[0].Pos(), "the pair is looked up as (A,B) and as (B,A) through a helper that builds the key from its two arguments")
 	case len(lookups) >= 2 && lookups[0].Index != lookups[1].Index && swappedKeys(lookups[0].Index, lookups[1].Index):
 		c.ok(rule, key+"duplicate-lookup-both-orientations", lookups[0].Pos(), "the pair is looked up as (A,B) and as (B,A)")
 	case len(lookups) >= 2:
@@ -443,6 +448,62 @@ func mergeLoopsOverBoth(add *ssa.Function, m *ssa.Call) bool {
 		}
 	}
 	return false
+}
+
+// pairLookupWrapper: g looks the key [2]T{a, b} built from two of its parameters up in p.seen; returns their indices.
+func pairLookupWrapper(g *ssa.Function, pkg *ssa.Package) (int, int) {
+	if g == nil || g.Pkg != pkg || g.Blocks == nil {
+		return -1, -1
+	}
+	for _, b := range g.Blocks {
+		for _, ins := range b.Instrs {
+			l, ok := ins.(*ssa.Lookup)
+			if !ok || !l.CommaOk || !loadOfField(l.X, palsPkg, "Piler", "seen") {
+				continue
+			}
+			u, ok := l.Index.(*ssa.UnOp)
+			if !ok || u.Op != token.MUL {
+				continue
+			}
+			al, ok := u.X.(*ssa.Alloc)
+			if !ok {
+				continue
+			}
+			var a, bb ssa.Value
+			for _, r := range *al.Referrers() {
+				ia, ok := r.(*ssa.IndexAddr)
+				if !ok {
+					continue
+				}
+				i, ok := constIntVal(ia.Index)
+				if !ok {
+					continue
+				}
+				for _, rr := range *ia.Referrers() {
+					if st, ok := rr.(*ssa.Store); ok {
+						if i == 0 {
+							a = st.Val
+						} else if i == 1 {
+							bb = st.Val
+						}
+					}
+				}
+			}
+			pi, pj := -1, -1
+			for i, prm := range g.Params {
+				if a == ssa.Value(prm) {
+					pi = i
+				}
+				if bb == ssa.Value(prm) {
+					pj = i
+				}
+			}
+			if pi >= 0 && pj >= 0 && pi != pj {
+				return pi, pj
+			}
+		}
+	}
+	return -1, -1
 }
 
 func swappedKeys(k1, k2 ssa.Value) bool {
